@@ -487,6 +487,7 @@ static void mode_tiny(int amax, int amaxcg, int kmax, bool widesets) {
         {"gmres.right.K", "gmres", "right", -1, 1}, {"fgmres.K", "fgmres", "right", -1, 1}, {"fgmres.1", "fgmres", "right", 1, 1}};
     long nsys = 0;
     for (auto &m : MS) {
+        if (!widesets && (std::string(m.name) == "gmres.left.1" || std::string(m.name) == "gmres.right.K" || std::string(m.name) == "fgmres.1")) continue;
         bool iscg = std::string(m.method) == "cg";
         int am = iscg ? amaxcg : amax, w = 2 * am + 1;
         for (long code = 0; code < (long)w * w * w * w; ++code) {
@@ -504,7 +505,10 @@ static void mode_tiny(int amax, int amaxcg, int kmax, bool widesets) {
                 pb.finish();
                 for (int k = 1; k <= kmax; ++k) {
                     cfg cf; cf.method = m.method; cf.side = m.side; cf.M = m.M < 0 ? kmax : m.M; cf.damping = m.damping;
-                    std::vector<T> x; result r = run_real(pb, cf, k, 0.0, x);
+                    // tol = 1e-12: an exactly converged iterate (residual 0 in exact arithmetic, rounding noise in
+                    // doubles) ends the iteration as it does in the rational program; every other residual of these
+                    // small rational systems is far above it
+                    std::vector<T> x; result r = run_real(pb, cf, k, 1e-12, x);
                     vr::obj o; o.str("k", "tiny").str("m", m.name).i("n", n).i("kk", k).i("M", cf.M);
                     o.ints("A", a, a + 4).ints("P", pv).ints("f", fv).ints("x0", xv);
                     if (!r.ok) { o.str("exc", r.exc); vr::emit(o.done()); continue; }
